@@ -142,4 +142,21 @@ def acorrSq (gs : List CMat) : List CMat :=
 def rescale (s : Sol) (f : Rat) : Sol :=
   { s with covU := QMat.smul (f * f) s.covU, covW := QMat.smul (f * f) s.covW }
 
+/-- `rescale_stds(f, kind=…)` applied in any sequence: the stds of the transition shocks end up multiplied by `fu`,
+those of the measurement shocks by `fw` (a kind that selects nothing changes nothing; nothing else is touched) -/
+def rescaleKinds (s : Sol) (fu fw : Rat) : Sol :=
+  { s with covU := QMat.smul (fu * fu) s.covU, covW := QMat.smul (fw * fw) s.covW }
+
+/-- one call: the cumulative factors after `rescale_stds(f, kind)` -/
+inductive StdKind | all | transition | measurement
+def applyKind (fuw : Rat × Rat) (k : StdKind) (f : Rat) : Rat × Rat :=
+  match k with
+  | .all => (fuw.1 * f, fuw.2 * f)
+  | .transition => (fuw.1 * f, fuw.2)
+  | .measurement => (fuw.1, fuw.2 * f)
+
+/-- a sequence of calls -/
+def applyKinds (calls : List (StdKind × Rat)) : Rat × Rat :=
+  calls.foldl (fun acc c => applyKind acc c.1 c.2) (1, 1)
+
 end IrisVerif.Acov
